@@ -4,6 +4,7 @@
 //! batch_mutate_leaf_and_update_mps}`.  Family `mmrp` (same text evaluated by `lean/TF/Drv/MmrMember.lean`).
 //!
 //!   verify tag i leaf peaks count path     one verification; reply `ok:<bool>`
+//!   free_check N K                         model-only bounded test (free hash algebra, all shapes up to N leaves)
 //!   hist ops                               a whole history from the empty MMR (see the Lean driver for the op
 //!                                          grammar); reply: per op `<return value>;<[len,checksum] per tracked
 //!                                          proof>` joined by `|`, then `#count#peaks#tracked indices#tracked proofs`
@@ -442,6 +443,8 @@ pub fn gen(rng: &mut Rng, thorough: bool, out: &mut Vec<String>) {
         let l = if i % 10 == 0 { 3 * len } else { rng.range(4, len) };
         out.push(gen_history(rng, if i % 4 == 0 { 5 } else { max_k }, l));
     }
+    // bounded model check in the Lean model (free hash algebra): all shapes up to N leaves
+    out.push(if thorough { "mmrp free_check 64 20".to_string() } else { "mmrp free_check 20 10".to_string() });
     // verification on valid and malformed tuples
     let nv = if thorough { 40_000 } else { 2_500 };
     for i in 0..nv {
@@ -594,6 +597,7 @@ pub fn run_mmrp(op: &str, a: &[Arg], st: &mut Stats) -> Option<Out> {
             }
             out
         }
+        ("free_check", [_, _]) => Out::ok("ok:true"), // model-only bounded test; the implementation is checked by the history oracles
         ("hist", [ops]) => {
             let ops = ops.list()?;
             let mut h = Hist { acc: MmrAccumulator::new_from_leafs(vec![]), leaves: vec![], tracked: vec![], fails: vec![] };
